@@ -9,13 +9,11 @@ from . import run, world
 
 def norm_events(events, R):
     """what must be equal between the reference run and a crash/fault re-run
-    up to the injection point: operation, class and the directory of each
-    path (the last component may be a generated name)"""
+    up to the injection point: operation, class and number of paths (path
+    names may contain generated components: temp names, pids)"""
     out = []
     for e in events:
-        out.append((e['op'], e['c'],
-                    tuple((os.path.dirname(p.replace(R, '@R')) if p else p)
-                          for p in e['p'])))
+        out.append((e['op'], e['c'], len(e['p'])))
     return out
 
 
